@@ -44,10 +44,10 @@ func (gw *groupWriter) close() error {
 		// don't print begin/end messages if there's no buffered entries
 		return nil
 	}
-	if _, err := io.WriteString(gw.writer, gw.begin); err != nil {
-		return err
-	}
-	gw.buff.WriteString(gw.end)
-	_, err := io.Copy(gw.writer, &gw.buff)
+	// Emit begin, the buffered output and end with a single write, so that the
+	// blocks of commands finishing at the same time cannot interleave
+	block := gw.begin + gw.buff.String() + gw.end
+	gw.buff.Reset()
+	_, err := io.WriteString(gw.writer, block)
 	return err
 }
